@@ -116,6 +116,9 @@ func cmdFunc(args []string) {
 		for _, u := range res.Unsupported {
 			fmt.Printf("   UNSUPPORTED %s\n", u)
 		}
+		for _, h := range res.HintFailIDs {
+			fmt.Printf("   hint not proved: %s\n", h)
+		}
 		cnt := map[string]int{}
 		for _, o := range res.Obligations {
 			cnt[o.Status]++
